@@ -355,16 +355,16 @@ class OwnAnalysis:
             st.dang[obj] = st.held.pop(obj)
         elif h == "M":
             self.report("free-after-move", node, loc, "%s(%s): ownership of %s was handed over before" % (callee, loc, st.site.get(obj, "the object")), st)
+        elif h == "C" and str(obj).startswith("caller:") and str(obj)[7:] not in self.pp_params and not self.is_destructor:
+            self.report("free-of-borrowed", node, loc,
+                        "%s(%s): this is %s - memory the caller (or a process-wide list) still owns and will use or release again" % (
+                            callee, loc, st.site.get(obj, "the caller's object")), st)
         if callee in DESTRUCTORS or callee in ("econf_freeFile", "econf_freeExtValue"):
             for o9, (h9, ft9) in list(st.dang.items()):
                 if h9 == obj:
                     self.report("double-free", node, loc, "%s(%s) releases `%s` as well, which was already released (%s)" % (
                         callee, loc, ft9, st.site.get(o9, "the object")), st)
                     del st.dang[o9]
-        elif h == "C" and str(obj).startswith("caller:") and str(obj)[7:] not in self.pp_params and not self.is_destructor:
-            self.report("free-of-borrowed", node, loc,
-                        "%s(%s): this is %s - memory the caller (or a process-wide list) still owns and will use or release again" % (
-                            callee, loc, st.site.get(obj, "the caller's object")), st)
         st.heap[obj] = "F"
 
     def eval_rhs(self, st, e, node):
